@@ -1,41 +1,65 @@
 (* C10 — nrpickler round-trips any graph to an isomorphic, usable, detached copy.
    PARTIAL: what a Gallina model can carry is the one piece of logic in nrpickler.py — replacing
-   dill's recursion by a queue while preserving stream order and memoisation order.  `expand`
-   (what one invocation of dill's save() does on one object given the memo at entry) is an
-   arbitrary parameter, so the theorems hold for every object graph: any size, depth, sharing and
-   cycles.  That the bytes decode to an isomorphic graph is pickle's / dill's behaviour and is
-   decided by the round-trip legs of the harness.  Statements only; proofs in PicklerProofs.v. *)
+   dill's recursion by a queue while preserving stream order and memoisation order.
+
+   HYPOTHESIS of the whole development: `expand` — what one invocation of dill's save() does on
+   one object — is a function of the memo at entry and of the object ONLY.  Under it `expand` is
+   an arbitrary parameter, so the theorems hold for every object graph: any size, depth, sharing
+   and cycles.  dill VIOLATES the hypothesis for classes and functions pickled by value: its
+   `_postproc` bookkeeping follows the recursion stack, not the memo, and the scheduler, which
+   has no such stack, looped forever on them.  The repaired code saves such objects atomically:
+   when the turn of a class or a function comes, it and its whole subtree are saved the
+   recursive way, nothing being deferred.  `atomic` (arbitrary too) says which objects those
+   are.  The drain step of an atomic object is ONE run of the recursive relation RunA over its
+   subtree (constructor D_a): the scheduler does nothing of its own there.  So for the real code
+   the hypothesis is asked of each invocation of save() outside atomic subtrees, and of an
+   atomic subtree only AS A WHOLE (what dill does in it, run recursively from the memo at its
+   entry, does not depend on when its turn came); the individual invocations inside it, where
+   the stack-dependent bookkeeping lives, are not constrained.  (In the model RunA is written
+   with `expand` throughout; the theorems say that whatever RunA does, the scheduler does.)
+
+   That the bytes decode to an isomorphic graph is pickle's / dill's behaviour and is decided by
+   the round-trip legs of the harness.  Statements only; proofs in PicklerProofs.v. *)
 From EG Require Import Base Pickler PicklerProofs.
 
 (* whenever the recursive pickler terminates with stream o' and memo m', the queue scheduler
-   terminates with exactly the same stream and memo — and conversely *)
-Theorem C10_scheduler_equals_recursive_pickler : forall expand root m0 o0 m' o',
-  RunA expand (expand m0 root) m0 o0 m' o' <-> Drain expand [IS root] m0 o0 m' o'.
+   terminates with exactly the same stream and memo — and conversely; whatever objects are atomic *)
+Theorem C10_scheduler_equals_recursive_pickler : forall expand atomic root m0 o0 m' o',
+  RunA expand (expand m0 root) m0 o0 m' o' <-> Drain expand atomic [IS root] m0 o0 m' o'.
 Proof. intros; split; [apply lazy_equals_recursive | apply recursive_equals_lazy]. Qed.
 (* the same for the executable functions the tie runs on traced dill action lists *)
-Theorem C10_nr_dump_equals_rec_dump : forall expand fuel root r,
-  rec_dump expand fuel root = Some r -> exists fuel', nr_dump expand fuel' root = Some r.
+Theorem C10_nr_dump_equals_rec_dump : forall expand atomic fuel root r,
+  rec_dump expand fuel root = Some r -> exists fuel', nr_dump expand atomic fuel' root = Some r.
 Proof. exact nr_dump_equals_rec_dump. Qed.
-Theorem C10_rec_dump_equals_nr_dump : forall expand fuel root r,
-  nr_dump expand fuel root = Some r -> exists fuel', rec_dump expand fuel' root = Some r.
+Theorem C10_rec_dump_equals_nr_dump : forall expand atomic fuel root r,
+  nr_dump expand atomic fuel root = Some r -> exists fuel', rec_dump expand fuel' root = Some r.
 Proof. exact rec_dump_equals_nr_dump. Qed.
-Theorem C10_scheduler_is_deterministic : forall expand q m o m1 o1, Drain expand q m o m1 o1 ->
-  forall m2 o2, Drain expand q m o m2 o2 -> m1 = m2 /\ o1 = o2.
+Theorem C10_scheduler_is_deterministic : forall expand atomic q m o m1 o1, Drain expand atomic q m o m1 o1 ->
+  forall m2 o2, Drain expand atomic q m o m2 o2 -> m1 = m2 /\ o1 = o2.
 Proof. exact Drain_det. Qed.
 (* the executable versions are sound and complete for the relations *)
-Theorem C10_drain_f_sound : forall expand fuel q m o m' o', drain_f expand fuel q m o = Some (m', o') -> Drain expand q m o m' o'.
+Theorem C10_drain_f_sound : forall expand atomic fuel q m o m' o', drain_f expand atomic fuel q m o = Some (m', o') -> Drain expand atomic q m o m' o'.
 Proof. exact drain_f_sound. Qed.
-Theorem C10_drain_f_complete : forall expand q m o m' o', Drain expand q m o m' o' -> exists fuel, drain_f expand fuel q m o = Some (m', o').
+Theorem C10_drain_f_complete : forall expand atomic q m o m' o', Drain expand atomic q m o m' o' -> exists fuel, drain_f expand atomic fuel q m o = Some (m', o').
 Proof. exact drain_f_complete. Qed.
-(* no recursion however deep the graph: once one save() of a body is deferred, everything after it in
-   that body is deferred (so realsave never descends); the drain loop is tail-shaped.  The recursive
-   pickler's depth grows with the graph: 31 nested save() calls for a chain of 30 objects. *)
+(* with every object atomic the drain of [IS root] is one step, and that step is the recursive pickler *)
+Theorem C10_atomic_everywhere_is_the_recursive_pickler : forall expand root m o m' o',
+  Drain expand (fun _ => true) [IS root] m o m' o' <-> RunA expand (expand m root) m o m' o'.
+Proof. exact atomic_everywhere_is_the_recursive_pickler. Qed.
+(* with no object atomic it is the scheduler as it was before the repair (Drain0: PicklerProofs.v) *)
+Theorem C10_atomic_nowhere_is_the_old_scheduler : forall expand q m o m' o',
+  Drain expand (fun _ => false) q m o m' o' <-> Drain0 expand q m o m' o'.
+Proof. exact atomic_nowhere_is_the_old_scheduler. Qed.
+(* no recursion however deep the graph outside atomic subtrees: once one save() of a body is deferred,
+   everything after it in that body is deferred (so realsave never descends); the drain loop is
+   tail-shaped.  The recursive pickler's depth grows with the graph: 31 nested save() calls for a
+   chain of 30 objects. *)
 Theorem C10_everything_after_a_deferred_save_is_deferred : forall pre x post st lz1 m1 o1,
   fold_left lazy_act pre st = (lz1, m1, o1) ->
   fold_left lazy_act (pre ++ Save x :: post) st = (lz1 ++ IS x :: map item_of post, m1, o1).
 Proof. exact realsave_defers_after_first_save. Qed.
-Theorem C10_a_passing_case_is_a_real_run : forall tbl root em eo, pcheck (tbl, root, (em, eo)) = true ->
-  nr_dump (table_expand tbl) (200 * 200) root = Some (em, eo) /\ rec_dump (table_expand tbl) (200 * 200) root = Some (em, eo).
+Theorem C10_a_passing_case_is_a_real_run : forall tbl atoms root em eo, pcheck (tbl, atoms, root, (em, eo)) = true ->
+  nr_dump (table_expand tbl) (fun x => existsb (Nat.eqb x) atoms) (200 * 200) root = Some (em, eo) /\ rec_dump (table_expand tbl) (200 * 200) root = Some (em, eo).
 Proof. exact pcheck_sound. Qed.
 
 Print Assumptions C10_scheduler_equals_recursive_pickler.
@@ -44,7 +68,10 @@ Print Assumptions C10_rec_dump_equals_nr_dump.
 Print Assumptions C10_scheduler_is_deterministic.
 Print Assumptions C10_drain_f_sound.
 Print Assumptions C10_drain_f_complete.
+Print Assumptions C10_atomic_everywhere_is_the_recursive_pickler.
+Print Assumptions C10_atomic_nowhere_is_the_old_scheduler.
 Print Assumptions C10_everything_after_a_deferred_save_is_deferred.
 Print Assumptions C10_a_passing_case_is_a_real_run.
 Print Assumptions chain_depth.
 Print Assumptions shared_and_cyclic.
+Print Assumptions mixed_atomic_example.
